@@ -57,6 +57,49 @@ CLAIMS = {
              'assumed to belong to one chain (FilterChain links them by mutation); user predicates of AttributeFilter are '
              'arbitrary functions in the model.',
         design='DESIGN.md section 7, C19'),
+    'C01': dict(
+        technique='Coq proof: Gallina model of Payload.from_bitarray / get_int / decode_bin_as_ascii6 / converters over field '
+                  'tables, dispatch trees, converters and enumerations REGENERATED from /repo, proved equal to an independent '
+                  'ITU/gpsd layout for all bit strings of nominal length of all 35 variants + differential check + layout oracle',
+        text='Theorem C01 (with C01_from_bitarray_char, C01_int_read_unsigned/_signed, C01_kind_sem, C01_tables_match_spec, '
+             'C01_dispatch_matches_spec) is proved in full, unbounded in the payload: for every variant v and every bit string '
+             'of nominal length selecting v (text padding zero) the model decodes to the class of v and every field value '
+             'matches the value the hand-transcribed layout (Spec/Layout.v) assigns. Finite sub-domains (256 rate-of-turn '
+             'codes, 256 codes of each enumeration, 64 six-bit characters) by vm_compute lifted with forallb_forall. The table '
+             'and dispatch obligations are re-checked against the regenerated tables on every run and break by name '
+             '(tables_match_spec_V<variant>, dispatch_table_V<variant>). Not covered by this theorem: the carrier (C04/C09). ' + TIE,
+        note=BASE_NOTE + 'Spec/Layout.v is a hand transcription of ITU-R M.1371-5 / gpsd AIVDM (DESIGN.md Appendix A); binary64 '
+             'arithmetic enters through the standard model (decoded reals are exact rationals num/den, compared with the '
+             'Python float by x == num/den on Python integers).',
+        design='DESIGN.md section 7, C01'),
+    'C09': dict(
+        technique='Coq proof over a Gallina model of encode.py (all armored payloads of 1..540 characters; all clauses but the '
+                  'length limit for any length; armoring round trip for all bit strings) + differential check against '
+                  'ais_to_nmea_0183 / encode_dict / encode_msg / encode_ascii_6 + extracted clause-list oracle and decoder '
+                  'acceptance on the implementation output',
+        text='C09 (every clause of the property for every armored payload of 1..540 characters, both talkers, both channels, '
+             'fill 0..5), C09_any_length, C09_armor_roundtrip (decode_into_bit_array (encode_ascii_6 b) = b with fill = '
+             '(6 - |b| mod 6) mod 6 for ALL bit strings), C09_frame_roundtrip (fragment payloads de-armor back to the bits), '
+             'C09_encode_msg / C09_encode_dict and the type-key lemmas are proved in Coq, by induction along the chunk list; '
+             'hex formatting over 256 cases by vm_compute. "Accepted by the decoder" is stated in Coq as the clause list plus '
+             'the de-armoring round trip (sentence parsing is the model of C05/C10) and demanded by the oracle on the '
+             'implementation (pyais.decode succeeds and reassembles the encoded bits). ' + TIE,
+        note=BASE_NOTE + 'Prim/Fmt.v models str(int) / format(int, "02X"); Spec/FrameSpec.v is the hand-written clause list; '
+             'ASCII-only strings; the fragment size and template literals are tied to pyais/encode.py by C09_literals_tied over '
+             'the regenerated Gen/GenConst.v.',
+        design='DESIGN.md section 7, C09'),
+    'C11': dict(
+        technique='Coq proof (characterisation of the from_bitarray loop by induction on the field list; prefix stability of the '
+                  'dispatch) over the regenerated tables, for every cut position + differential check + oracle relative to '
+                  'the untruncated decode',
+        text='Theorem C11 is proved in full for every payload of every variant and EVERY cut position n with '
+             'max(6, discriminator end) <= n <= nominal: the prefix decodes to the same class, every field lying completely '
+             'within the received bits has the value of the untruncated decode, every field starting at or beyond the end is '
+             'None; C11_dispatch_prefix_stable alongside. Independent of sign flags / scale constants (its cone excludes the '
+             'C01 value lemmas), so a converter that is not None-safe or a changed end-of-data test breaks exactly this '
+             'obligation or the correspondence. ' + TIE,
+        note=BASE_NOTE + 'partially covered fields are unconstrained (as in the property); Spec/Layout.v gives offsets/widths.',
+        design='DESIGN.md section 7, C11'),
 }
 
 PENDING = 'check not yet built in this snapshot (work in progress; see DESIGN.md section 12 for the status)'
